@@ -117,7 +117,7 @@ func createKeyStore(blocks []*pem.Block, password string) (keyStore, error) {
 		switch block.Type {
 		case pemBlockTypeEncryptedPrivateKey:
 			// PKCS#8 (PKCS#5 (v2.0) algorithms)
-			key, err = pkcs8.ParsePKCS8PrivateKey(block.Bytes, stringx.ToBytes(password))
+			key, err = parseEncryptedPrivateKey(block.Bytes, stringx.ToBytes(password))
 		case pemBlockTypePrivateKey:
 			// PKCS#8 - unencrypted
 			key, err = x509.ParsePKCS8PrivateKey(block.Bytes)
@@ -271,4 +271,18 @@ func createEntry(key any, keyID string) (*Entry, error) {
 		KeySize:    size,
 		PrivateKey: sigKey,
 	}, nil
+}
+
+// parseEncryptedPrivateKey decrypts a PKCS#8 entry. The parameters of the key derivation function and of the cipher
+// are taken from the entry, and the used implementation panics, if these are outside of their domain (like
+// an initialization vector of wrong size, a truncated cipher text, or a scrypt block size of 0).
+func parseEncryptedPrivateKey(der, password []byte) (key any, err error) { //nolint:nonamedreturns
+	defer func() {
+		if rec := recover(); rec != nil {
+			key = nil
+			err = errorchain.NewWithMessagef(heimdall.ErrInternal, "malformed encrypted private key: %v", rec)
+		}
+	}()
+
+	return pkcs8.ParsePKCS8PrivateKey(der, password)
 }
